@@ -215,10 +215,79 @@ def r_bind(c):
                     "the index lambda has an unbound name")
 
 
+def r_domain(c):
+    """string-valued parameters are stored in the normal form the lowering tests"""
+    m = c.model
+    fd = m.func("pytato.array.reshape")
+    where = m.loc("pytato.array", fd)
+    # validation: <X> not in [literals]  with X = order / order.upper()
+    admitted = None
+    norm = None
+    for iff in ast.walk(fd):
+        if isinstance(iff, ast.If) and isinstance(iff.test, ast.Compare) \
+                and isinstance(iff.test.ops[0], ast.NotIn) \
+                and "order" in ast.unparse(iff.test.left) \
+                and any(isinstance(s_, ast.Raise) for s_ in iff.body):
+            admitted = {e.value for e in iff.test.comparators[0].elts}
+            norm = iff.test.left
+            guard = iff
+    if admitted is None:
+        raise AnalysisError("anchor vanished: validation of reshape's order argument")
+    ctor = [x for x in ast.walk(fd) if isinstance(x, ast.Call) and ast.unparse(x.func) == "Reshape"]
+    init = m.init_order("pytato.array.Reshape")
+    passed = None
+    for call in ctor:
+        kws = {k.arg: k.value for k in call.keywords}
+        for i, a in enumerate(call.args):
+            kws[init[i]] = a
+        passed = kws.get("order")
+    ok = passed is not None
+    if ok and isinstance(norm, ast.Call):
+        # the check normalises (e.g. order.upper()): what is stored must be the
+        # normalised value -- either the same expression or the parameter
+        # re-assigned to it before the check
+        same = ast.unparse(passed) == ast.unparse(norm)
+        ok = same
+    elif ok:
+        # the check tests the bare name: it must have been normalised before, or
+        # the admitted literals are exactly what consumers test
+        reassigned = [s_ for s_ in ast.walk(fd) if isinstance(s_, ast.Assign)
+                      and ast.unparse(s_.targets[0]) == ast.unparse(norm)
+                      and s_.lineno < guard.lineno]
+        ok = ast.unparse(passed) == ast.unparse(norm)
+        c.notes.append(f"reshape: order normalised before validation: {bool(reassigned)}")
+    c.check(ok, "R02-DOMAIN", "array.reshape", "order:stored-value-is-the-validated-one",
+            where,
+            f"the argument check tests `{ast.unparse(norm)}` but the node stores "
+            f"`{ast.unparse(passed) if passed is not None else None}`: a value the check "
+            "admits only after normalisation (e.g. 'c') reaches lowering un-normalised")
+    # the literals lowering distinguishes are among the admitted ones
+    tested = set()
+    for qn in ("pytato.transform.lower_to_index_lambda._generate_index_expressions",
+               "pytato.transform.lower_to_index_lambda._get_reshaped_indices"):
+        f2 = m.func(qn)
+        for cmp_ in ast.walk(f2):
+            if isinstance(cmp_, ast.Compare) and "order" in ast.unparse(cmp_.left) \
+                    and isinstance(cmp_.comparators[0], ast.Constant) \
+                    and isinstance(cmp_.comparators[0].value, str):
+                tested.add(cmp_.comparators[0].value)
+    if not tested:
+        raise AnalysisError("anchor vanished: order tests in the reshape lowering")
+    c.check(tested <= admitted, "R02-DOMAIN", "lower_to_index_lambda reshape helpers",
+            f"order:tests {sorted(tested)} within admitted {sorted(admitted)}", where,
+            f"lowering distinguishes order values {sorted(tested)} but the front end "
+            f"admits {sorted(admitted)}")
+    c.check(len(admitted - tested) <= 1, "R02-DOMAIN", "lower_to_index_lambda reshape helpers",
+            "order:at-most-one-value-left-to-else", where,
+            f"more than one admitted order value ({sorted(admitted - tested)}) falls into "
+            "the same else-branch of the lowering")
+
+
 SPEC = Spec(
     prop="C02",
-    rules=[r_total, r_meta, r_consume, r_bind],
-    floors={"R02-TOTAL": 30, "R02-META": 70, "R02-CONSUME": 20, "R02-BIND": 14},
+    rules=[r_total, r_meta, r_consume, r_bind, r_domain],
+    floors={"R02-TOTAL": 30, "R02-META": 70, "R02-CONSUME": 20, "R02-BIND": 14,
+            "R02-DOMAIN": 3},
     explanation=(
         "R02-TOTAL: every high-level kind (derived from the class table: concrete "
         "array kinds with array-valued operands that are not inputs, index "
@@ -230,7 +299,10 @@ SPEC = Spec(
         "shape, with constantdict mappings. R02-CONSUME: every semantic field of "
         "the kind (embedded sparse-matrix parts and reduction descriptors "
         "included) is read by its rule. R02-BIND: every binding-variable name a "
-        "rule puts into the expression is a key of a mapping it builds."),
+        "rule puts into the expression is a key of a mapping it builds. R02-DOMAIN: "
+        "the order string reshape() stores is the one its check validated "
+        "(normalised), and the values lowering distinguishes are the admitted "
+        "ones."),
     not_decided=(
         "The index arithmetic itself (slice normalisation, reshape stride/modulo, "
         "roll sign, concatenate offsets, advanced-index axis placement): a "
